@@ -191,7 +191,8 @@ def tlc_trace(d, module, cfg, tracefile, nlines, timeout=900, label="trace", xss
     fails = [(int(a), b, c) for a, b, c in _RE_FAIL.findall(r["out"])]
     consumed = "Model checking completed. No error has been found" in r["out"]
     if not consumed and not r["violated"]:
-        raise Infra("trace validation %s did not complete (rc=%d):\n%s" % (module, r["rc"], r["out"][-4000:]))
+        errs = [ln for ln in r["out"].splitlines() if ln.startswith("Error") or "Exception" in ln or "attempted" in ln.lower()][:12]
+        raise Infra("trace validation %s did not complete (rc=%d):\n%s\n...\n%s" % (module, r["rc"], "\n".join(errs), r["out"][-1500:]))
     r["consumed"] = consumed
     return fails, r
 
